@@ -28,18 +28,27 @@ def _alarm(signum, frame):
 
 
 def timed(fn, *args, secs: float = CALL_TIMEOUT):
-    """Run fn under a per-call alarm.  Returns (value, exc_name)."""
+    """Run fn under a per-call alarm.  Returns (value, exc_name).  The alarm may fire at ANY point up to the moment it is
+    disarmed - also after fn has returned - so the disarming itself sits inside a handler for it."""
     old = signal.signal(signal.SIGALRM, _alarm)
-    signal.setitimer(signal.ITIMER_REAL, secs)
+    out = (None, "Timeout")
     try:
-        return fn(*args), ""
-    except _Timeout:
-        return None, "Timeout"
-    except Exception as e:  # noqa: BLE001
-        return None, type(e).__name__
+        try:
+            signal.setitimer(signal.ITIMER_REAL, secs)
+            try:
+                out = (fn(*args), "")
+            except _Timeout:
+                out = (None, "Timeout")
+            except Exception as e:  # noqa: BLE001
+                out = (None, type(e).__name__)
+            finally:
+                signal.setitimer(signal.ITIMER_REAL, 0)
+        except _Timeout:              # fired between the end of fn and the disarming
+            signal.setitimer(signal.ITIMER_REAL, 0)
+            out = (None, "Timeout")
     finally:
-        signal.setitimer(signal.ITIMER_REAL, 0)
         signal.signal(signal.SIGALRM, old)
+    return out
 
 
 # --------------------------------------------------------------------------- alphabet
